@@ -4,6 +4,8 @@ import (
 	"context"
 	"errors"
 	"io"
+	"math"
+	"sort"
 	"sync"
 	"time"
 
@@ -22,10 +24,10 @@ var ErrLostOplogPosition = errors.New("lost oplog position")
 // Stream provides a mongo compatible way to read oplog events.
 type Stream struct {
 	handle   Handle
-	last     bsonkit.Doc
+	last     primitive.Timestamp
 	pipeline bsonkit.List
 	signal   chan struct{}
-	oplog    func() *bsonkit.Set
+	oplog    func() (*bsonkit.Set, primitive.Timestamp)
 	cancel   func()
 	event    bsonkit.Doc
 	token    interface{}
@@ -33,6 +35,25 @@ type Stream struct {
 	closed   bool
 	error    error
 	mutex    sync.Mutex
+}
+
+// eventTimestamp returns the id timestamp of an oplog event.
+func eventTimestamp(event bsonkit.Doc) primitive.Timestamp {
+	ts, _ := bsonkit.Get(event, "_id.ts").(primitive.Timestamp)
+	return ts
+}
+
+// timestampBefore returns the greatest timestamp below the specified one (the
+// zero timestamp for the zero timestamp).
+func timestampBefore(ts primitive.Timestamp) primitive.Timestamp {
+	switch {
+	case ts.I > 0:
+		return primitive.Timestamp{T: ts.T, I: ts.I - 1}
+	case ts.T > 0:
+		return primitive.Timestamp{T: ts.T - 1, I: math.MaxUint32}
+	default:
+		return primitive.Timestamp{}
+	}
 }
 
 // Close implements the IChangeStream.Close method.
@@ -170,21 +191,21 @@ func (s *Stream) next(ctx context.Context, block bool) bool {
 		}
 
 		// get oplog
-		oplog := s.oplog()
+		oplog, trimmed := s.oplog()
 
-		// get index
-		index := -1
-		if s.last != nil {
-			i, ok := oplog.Index[s.last]
-			if !ok {
-				s.cancel()
-				s.closed = true
-				s.error = ErrLostOplogPosition
-				s.mutex.Unlock()
-				return false
-			}
-			index = i
+		// check if an event after the position has been removed by retention
+		if primitive.CompareTimestamp(trimmed, s.last) > 0 {
+			s.cancel()
+			s.closed = true
+			s.error = ErrLostOplogPosition
+			s.mutex.Unlock()
+			return false
 		}
+
+		// get index of the last passed event (ids are strictly increasing)
+		index := sort.Search(len(oplog.List), func(i int) bool {
+			return primitive.CompareTimestamp(eventTimestamp(oplog.List[i]), s.last) > 0
+		}) - 1
 
 		// get next event
 		if len(oplog.List) > index+1 {
@@ -199,14 +220,14 @@ func (s *Stream) next(ctx context.Context, block bool) bool {
 
 			// match database and collection
 			if s.handle[0] != "" && s.handle[0] != nsDB {
-				s.last = event
+				s.last = eventTimestamp(event)
 				s.mutex.Unlock()
 				continue
 			} else if s.handle[1] != "" && s.handle[1] != nsColl && opType != "dropDatabase" {
 				// dropDatabase events carry only ns.db; let them through so a
 				// collection-scoped stream watching a database that's being
 				// dropped still gets its invalidation
-				s.last = event
+				s.last = eventTimestamp(event)
 				s.mutex.Unlock()
 				continue
 			}
@@ -221,7 +242,7 @@ func (s *Stream) next(ctx context.Context, block bool) bool {
 			// TODO: Filter with pipeline.
 
 			// set event and token
-			s.last = event
+			s.last = eventTimestamp(event)
 			s.event = event
 			s.token = token
 			s.mutex.Unlock()
